@@ -49,8 +49,9 @@ func registerProtoModel(P *Program) {
 			ex.protoSnaps[key] = vars
 		}
 		et := bt.Underlying().(*types.Slice).Elem()
-		c := protoLen + ex.protoExtraCap
-		s := ex.makeSlice(et, protoLen, c)
+		// proto.Marshal returns a buffer of exactly the encoded size (observed natively: cap == len);
+		// buffers produced by the decoder, in contrast, come from append and have spare capacity
+		s := ex.makeSlice(et, protoLen, protoLen)
 		copy(s.elems(), vars)
 		tag := &ProtoTag{T: m.T, Snap: snap, Len: protoLen, key: key}
 		s.base.obj.tag = tag
